@@ -56,11 +56,14 @@ pub struct Encoding {
 	pub split_tables: bool,
 	/// always use the extended stack-map frame forms
 	pub frames_extended: bool,
+	/// write the frames as a CLDC `StackMap` attribute (explicit offsets, full frames only) instead of a StackMapTable;
+	/// every frame of the method must be `SFrame::Full`
+	pub frames_cldc: bool,
 }
 
 impl Default for Encoding {
 	fn default() -> Encoding {
-		Encoding { pool: PoolOrder::FirstUse, pads: Vec::new(), forms: Vec::new(), default_form: 0, attr_order: AttrOrder::Default, split_tables: false, frames_extended: false }
+		Encoding { pool: PoolOrder::FirstUse, pads: Vec::new(), forms: Vec::new(), default_form: 0, attr_order: AttrOrder::Default, split_tables: false, frames_extended: false, frames_cldc: false }
 	}
 }
 
@@ -683,7 +686,29 @@ impl Asm<'_> {
 		}
 		// code attributes
 		let mut list: Vec<(&str, Vec<u8>)> = Vec::new();
-		if !c.frames.is_empty() {
+		if !c.frames.is_empty() && self.enc.frames_cldc {
+			let mut fw = W::default();
+			fw.count16(c.frames.len(), "stack map frames")?;
+			for (i, f) in &c.frames {
+				let SFrame::Full { locals, stack } = f else {
+					return Err(AsmError::Unencodable("a CLDC StackMap holds full frames only".into()));
+				};
+				let o = off[*i as usize];
+				if o > 65535 {
+					return Err(AsmError::Unencodable("frame offset".into()));
+				}
+				fw.u16(o as u16);
+				fw.count16(locals.len(), "frame locals")?;
+				for x in locals {
+					self.vtype(&mut fw, x, &off)?;
+				}
+				fw.count16(stack.len(), "frame stack")?;
+				for x in stack {
+					self.vtype(&mut fw, x, &off)?;
+				}
+			}
+			list.push(("StackMap", fw.b));
+		} else if !c.frames.is_empty() {
 			let mut fw = W::default();
 			fw.count16(c.frames.len(), "stack map frames")?;
 			let mut prev: i64 = -1;
